@@ -81,8 +81,10 @@ theorem cached_needs_injective_keys :
 /-- **cached_correct_multi.**  Any number of indexes, each with its own embedding model `f`, key generator `g`
     and cache configuration, the stores identified by location; ANY interleaving of their calls at the
     granularity of the wrapper's two atomic sections (`begin i texts` … model awaited, other calls of any
-    index run … `finish k`).  PROVIDED no store location is used by two indexes with different models
-    (or key generators) — `NoForeignShare`, the hypothesis the harness checks on the real store objects —
+    index run … `finish k`).  PROVIDED two indexes using one store location never produce the same key for
+    texts their models embed differently — `NoForeignShare`: true when stores are not shared between indexes
+    with different models, and true of the repaired key derivation (model identity in the key) whatever is
+    shared; evaluated by the harness on the real store objects, real keys and model vectors of every case —
     every call that has returned, returned the CALLING index's model's vector of each of its texts in
     input order, and every location is still correct for every index using it.
     Without the hypothesis the statement is false of the code: `cached_multi_shared_store_as_is_counterexample`. -/
@@ -144,13 +146,32 @@ def twoIndexes (loc₁ loc₂ : Nat) : List (IndexCfg String Nat Nat) :=
 example : NoForeignShare (fun s : String => s = "a" ∨ s = "") (twoIndexes 0 1) ∧
     (∀ a ∈ twoIndexes 0 1, InjOn a.g (fun s : String => s = "a" ∨ s = "")) := by
   refine ⟨?_, ?_⟩
-  · intro a ha b hb hloc _ _ t _
+  · intro a ha b hb hloc _ _ t t' ht ht' hk
     simp only [twoIndexes, List.mem_cons, List.mem_nil_iff, or_false] at ha hb
-    rcases ha with rfl | rfl <;> rcases hb with rfl | rfl <;> simp_all
+    rcases ha with rfl | rfl <;> rcases hb with rfl | rfl <;> simp at hloc <;>
+      rcases ht with rfl | rfl <;> rcases ht' with rfl | rfl <;>
+      first | rfl | (exact absurd hk (by decide))
   · intro a ha x y hx hy hxy
     simp only [twoIndexes, List.mem_cons, List.mem_nil_iff, or_false] at ha
     rcases ha with rfl | rfl <;> rcases hx with rfl | rfl <;> rcases hy with rfl | rfl <;>
       first | rfl | (exact absurd hxy (by decide))
+
+/-- The proposed repair (model identity part of the key: keys of the two models are even / odd) with BOTH
+    indexes on ONE store location: the hypothesis holds — no key is shared — and each index gets its own
+    vectors (finite facts). -/
+def twoIndexesKeyed : List (IndexCfg String Nat Nat) :=
+  [{ cfg := { enabled := true, persistent := true }, g := fun s => 2 * s.length, f := fun s => s.length + 7, loc := 0 },
+   { cfg := { enabled := true, persistent := true }, g := fun s => 2 * s.length + 1, f := fun s => s.length + 100, loc := 0 }]
+
+example : NoForeignShare (fun s : String => s = "a" ∨ s = "") twoIndexesKeyed ∧
+    (multiCalls twoIndexesKeyed [] [(0, ["a", ""]), (1, ["a"]), (0, ["a"]), (1, ["", "a"])]).2
+      = [[some 8, some 7], [some 101], [some 8], [some 100, some 101]] := by
+  refine ⟨?_, by decide⟩
+  intro a ha b hb _ _ _ t t' ht ht' hk
+  simp only [twoIndexesKeyed, List.mem_cons, List.mem_nil_iff, or_false] at ha hb
+  rcases ha with rfl | rfl <;> rcases hb with rfl | rfl <;>
+    rcases ht with rfl | rfl <;> rcases ht' with rfl | rfl <;>
+    first | rfl | (exact absurd hk (by decide))
 
 /-- … and the interleaved run "index 0 begins, index 1 begins and finishes, index 0 finishes, index 1 hits its
     cache" returns each index's own vectors (finite fact, by evaluation). -/
